@@ -209,16 +209,10 @@ def install():
                 raise Horizon()
             fr = [name, 0]
             m.frames.append(fr)
-            if is_call:
-                m.depth += 1
             try:
                 return fn(tape, stack, cache)
             finally:
                 m.frames.pop()
-                if is_call:
-                    if m.depth > m.max_depth:
-                        m.max_depth = m.depth
-                    m.depth -= 1
                 st = getattr(stack, 'deque', None)
                 if st is not None:
                     n = len(st)
@@ -243,6 +237,17 @@ def install():
 
     def run_tape(tape, stack, cache, additional_flags={}):
         m = Mon.active
+        if m is not None and m.frames and m.frames[-1][0] in ('OP_CALL', 'OP_EVAL'):
+            # a CALL / EVAL that really enters its body: one more nesting level
+            m.depth += 1
+            if m.depth > m.max_depth:
+                m.max_depth = m.depth
+            if m.depth > m.limit:
+                m.problem('CALL/EVAL nesting deeper than the call-stack limit', f'{m.depth} > {m.limit}')
+            try:
+                return orig_run_tape(tape, stack, cache, additional_flags)
+            finally:
+                m.depth -= 1
         if m is not None and m.frames:
             fr = m.frames[-1]
             if fr[0] == 'OP_LOOP':
@@ -251,8 +256,6 @@ def install():
                     m.max_loop_iters = fr[1]
                 if fr[1] > m.limit:
                     m.problem('loop body ran more often than the call-stack limit', f'{fr[1]} > {m.limit}')
-            if m.depth > m.limit:
-                m.problem('CALL/EVAL nesting deeper than the call-stack limit', f'{m.depth} > {m.limit}')
         return orig_run_tape(tape, stack, cache, additional_flags)
 
     F.run_tape = run_tape
